@@ -32,8 +32,9 @@ CHECKS = {
     "C05": dict(
         technique="Lean 4 proof: implementation-shaped stack/deque/queue loops = recursive pre/post/level-order spec (induction on fuel/weight) + differential correspondence model vs real dfs/bfs/gather",
         text="Theorems (for every tree, every prune/filter, no size bound): dfsImpl = pre-order spec, bottom-up = post-order spec, "
-             "bfsImpl = level-by-level spec, gather = filtered pre-order, position soundness, start node never yielded, exactly "
-             "size-1 positions. The model is tied to /repo by running real dfs/bfs/gather/get_child_nodes_with_field and the "
+             "bfsImpl = level-by-level spec, gather = filtered pre-order; for all three orders: position soundness, start node never yielded, same positions "
+             "(permutations of each other for every prune/filter), filter = post-filtering of the unfiltered stream, a pruned position is offered to the filter and nothing below it is yielded, "
+             "keys pairwise distinct (each position exactly once) under NoRepeat, exactly size-1 positions. The model is tied to /repo by running real dfs/bfs/gather/get_child_nodes_with_field and the "
              "compiled Lean definitions on the same seeded trees and predicate subsets; any observable difference is a replayable violation.",
         note="Trusted: Lean kernel + 3 standard axioms; the hand-written model of node.py dfs/bfs/gather and of the generated "
              "child accessor (codegen.py) is tied to the code only by the correspondence (differential testing over seeded "
@@ -121,7 +122,7 @@ CHECKS = {
              "optionals omitted, a user property yielded unless non-comparable & skip_non_compare or non-init & skip_non_init, id/content_id/origin by their own flags); static and instance variants "
              "agree; sorted variant = name order; results independent of child truthiness and of which class of a hierarchy was used first (per-class installation). Correspondence: generated "
              "hierarchies (1-3 levels, overrides, init=False, compare=False, kw_only), every order of first use, all 2^5 x 2 flag combinations, empty tuples / absent optionals / falsy children.",
-        note="Trusted: dataclasses.fields() order semantics, exec of generated source; model tied by correspondence. Gap: 'sorted child enumeration = stable sort of the unsorted edge list' proved as name-order flat-map + permutation only.",
+        note="Trusted: dataclasses.fields() order semantics, exec of generated source; model tied by correspondence. Sorted child enumeration = stable sort of the unsorted edge list by field name (C12Extra).",
         design="5/C12"),
     "C13": dict(
         technique="Lean 4 proof: model of is_instance in code order = conformance relation of the statement, invalid_fields = filter of non-conforming fields + differential correspondence on an (annotation, value) matrix and node constructions with the switch on/off",
